@@ -46,6 +46,8 @@ def cfg : Cfg :=
     infoGoneExtra := Gen.C14.infoGoneExtra
     numFdsLenListdir := Gen.C14.numFdsLenListdir
     numFdsCap := Gen.C14.numFdsCap
-    ioIterFile := Gen.C14.ioIterFile }
+    ioIterFile := Gen.C14.ioIterFile
+    isfileHandlers := Gen.C14.isfileHandlers
+    existsHandlers := Gen.C14.existsHandlers }
 
 end Psutil.C14
